@@ -52,6 +52,12 @@ func c12Body(x *engine.Exec, c *GoCase) {
 	byPtr := x.Bool()
 	x.Case(fmt.Sprintf("%s|%v", c.Key(), byPtr), c.Fam != "plain" || c.T.Kind() != reflect.Bool)
 	x.Sample(c.Sample)
+	if c.Custom != nil {
+		// the folders this case registers (one execution at a time per process)
+		saved := model.CustomFolders
+		model.CustomFolders = c.Custom
+		defer func() { model.CustomFolders = saved }()
+	}
 	var fe model.FoldExpect
 	fe = model.RefFold(c.V.Interface())
 	rec, res := foldRun(x, c, byPtr)
